@@ -71,6 +71,10 @@ def handleMerge (cmd : String) (rest : List String) : Option String :=
             | "eq" => some (eqMergeF codeFlags (mergeFuel a.1 b.1))
             | "always" => some alwaysMerge
             | "never" => some neverMerge
+            -- merge (like `always`) only nodes with the same pointer / only when the right node's
+            -- value has an even number of bytes; decline otherwise
+            | "sameptr" => some fun x y s => if x.ptr == y.ptr then alwaysMerge x y s else (none, s)
+            | "evenlen" => some fun x y s => if y.value.length % 2 == 0 then alwaysMerge x y s else (none, s)
             | _ => none
           match f with
           | none => some "bad-op"
